@@ -1,0 +1,12 @@
+//go:build verif
+
+package yae
+
+import (
+	"github.com/goghcrow/yae/types"
+	"github.com/goghcrow/yae/val"
+)
+
+// Read-only access to an engine's function tables for the verification harness in /verif (-tags verif only).
+func VerifRuntimeEnv(e *Expr) *val.Env { return e.runtime }
+func VerifTypeEnv(e *Expr) *types.Env  { return e.typeCheck }
